@@ -137,7 +137,7 @@ def bath_of(nm, kind):
                                              temperature=1.0))
 
 
-EOMS = ["const", "lin_t", "decay", "tc", "full"]
+EOMS = ["const", "lin_t", "decay", "tc", "full", "zero"]       # zero: the field never moves (derivative exactly 0)
 LIN_C0, LIN_C1 = (1.0 + 0.5j), (2.0 - 1.0j)
 CONST_C = 0.3 - 0.2j
 
@@ -146,6 +146,8 @@ def make_eom(name, names):
     lows = [low(DIM[nm]) for nm in names]
     obs = [lo + 0.3 * lo.conj().T + 0.2 * np.diag(np.arange(lo.shape[0])) for lo in lows]
     w = [1.0, 0.7, -0.5][:len(names)]
+    if name == "zero":
+        return lambda t, s, a: 0.0
     if name == "const":
         return lambda t, s, a: CONST_C
     if name == "lin_t":
@@ -297,10 +299,12 @@ def check_field_rule(tag, f, states, fields, a0, start, dt, bad, out):
 
 
 def check_closed_form(tag, eom, fields, a0, start, dt, bad, out):
-    if eom not in ("const", "lin_t"):
+    if eom not in ("const", "lin_t", "zero"):
         return
     tk = start + dt * np.arange(len(fields))
-    if eom == "const":
+    if eom == "zero":
+        ref = a0 + 0.0 * tk
+    elif eom == "const":
         ref = a0 + CONST_C * (tk - start)
     else:
         ref = a0 + LIN_C0 * (tk - start) + LIN_C1 * (tk ** 2 - start ** 2) / 2
